@@ -4,7 +4,7 @@
 import json, os, shutil, sys
 pid, ran, caught = sys.argv[1], sys.argv[2], sys.argv[3]
 name = sys.argv[4] if len(sys.argv) > 4 else pid
-src = "/tmp/seeded_out/" + pid
+src = os.environ.get("SEED_SRC", "/tmp/seeded_out") + "/" + pid
 dst = "/verif/seeded/" + name
 os.makedirs(dst, exist_ok=True)
 for f in os.listdir(src):
